@@ -272,3 +272,6 @@ def check(ctx):
            "AtomicOption exposes exactly {none, some, store, take, clear}: unpark, timer and cancel cannot both resume the coroutine" if ok else
            "AtomicOption's inherent API is %s: an accessor beyond move-in/move-out lets two resumers obtain the same coroutine" % sorted(ms), None)
     shared.park_api_forwarding(ctx)
+    shared.thread_park_token_rules(ctx)
+    shared.blocker_wiring_rules(ctx)
+    shared.atomic_option_rules(ctx)
